@@ -46,7 +46,8 @@ def history(cfg, min_steps=3, max_steps=12, op_names=None, extra_ops=None):
 HIST_OPS = ['apply'] * 4 + ['remove'] * 2 + ['slice', 'slice', 'clip', 'clip', 'add', 'add', 'add', 'iadd', 'iadd', 'iadd', 'join', 'join',
                                            'ljust', 'rjust', 'center', 'zfill', 'assign', 'replace', 'replace', 'strip', 'rstrip', 'lstrip',
                                            'rmprefix', 'rmsuffix', 'case', 'expandtabs', 'split', 'rsplit', 'splitlines', 'partition',
-                                           'rpartition', 'copy', 'copy', 'fmtmatch', 'unfmtmatch', 'conv', 'conv', 'index', 'simplify', 'clear']
+                                           'rpartition', 'copy', 'copy', 'fmtmatch', 'unfmtmatch', 'conv', 'conv', 'index', 'simplify', 'clear',
+                                           'q_format', 'q_format', 'q_format', 'q_misc']
 
 INPLACE_ONLY = ('apply', 'remove', 'simplify', 'clear', 'assign', 'fmtmatch', 'unfmtmatch', 'iadd')
 
